@@ -45,7 +45,7 @@ def attrFloatsInt (attrs : Json) (name : String) : Option (Option (List Int)) :=
 
 def specOpt (dt : DType) (o : Option (Tensor Int)) (domSome : String) (domNone : String := "mustRefuse") : SpecOut :=
   match o with
-  | some t => { domain := domSome, outs := some [some (DT.mk dt t none)] }
+  | some t => { domain := domSome, outs := some [some (DT.mk dt (if isInt dt then ⟨t.shape, t.data.map (wrap dt)⟩ else t) none)] }
   | none => { domain := domNone }
 
 def isMatMulOp (op : String) : Bool := op == "MatMul" || op == "Gemm" || op == "LinearRegressor" || op == "Scaler"
@@ -130,6 +130,15 @@ def runMatMulOp (op : String) (attrs : Json) (ins : List (Option DT)) : Answer :
             { model := (okT X.dt (linregOp intArith coef icpt targets.toNat X.t)).checkExact,
               spec := specOpt X.dt (Spec.linreg intArith coef icpt targets.toNat X.t) "must", tags := [s!"t{targets}"],
               guard := if targets == 0 then ["linreg.zero_targets"] else [] }
+        | some coef, none =>
+          -- no intercepts: the product comes first (its shape errors are reported), the nil intercepts panic after it
+          let model : Outcome :=
+            if targets ≤ 0 then .ofErr .panic
+            else if X.dt != .f32 then .ofErr .gorgonia     -- the product refuses operands of different types (coefficients are float32)
+            else match linregOp intArith coef [0] targets.toNat X.t with
+              | .error e => .ofErr e
+              | .ok _ => .ofErr .panic
+          { model, spec := { domain := "mayRefuse" }, tags := ["missing-attr"], guard := ["linreg.no_intercepts"] }
         | _, _ =>
           { model := .ofErr .panic, spec := { domain := "mayRefuse" }, tags := ["missing-attr"],
             guard := [if coef.isNone then "linreg.no_coefficients" else "linreg.no_intercepts"] }
